@@ -107,6 +107,11 @@ def run(ctx):
         r = ctx.tlc('CertReload', cfg, label='%s: must violate Converges' % what, expect_ok=False, timeout=900)
         if r['violation'] != 'invariant Converges':
             raise vf.Inconclusive('non-vacuity guard failed for %s (%s)' % (cfg, r['violation']))
+    # what a handshake holds (pointer to a pair that must not change under it): pointer swap holds, overwriting in place fails
+    ctx.tlc('CertHandout', 'MC_C14_handout.cfg', label='a handshake in progress across reloads keeps one pair (pointer swap)', timeout=300)
+    r = ctx.tlc('CertHandout', 'MC_C14_handout_mutant.cfg', label='reload overwrites the struct in place: must violate PairStaysWhole', expect_ok=False, timeout=300)
+    if r['violation'] != 'invariant PairStaysWhole':
+        raise vf.Inconclusive('non-vacuity guard failed for CertHandout (%s)' % r['violation'])
     rng = random.Random(ctx.seed)
     hist = []
     expect = {}
